@@ -1,25 +1,192 @@
-"""C31 No fetches to dubious hosts unless allowed (Kani + M)."""
+"""C31 No fetches to dubious hosts unless allowed (M engine + z3 strings + native replay)."""
+import json
+import os
 import re
 
 import z3
 
 import mir
 import mprop
-from kprop import run_kani_part
 
-SPEC = {
-    "groups": ["uri"],
-    "files": ["src/utils/uri.rs", "src/collector/rsync.rs", "src/collector/rrdp/base.rs"],
-    "harnesses": {
-        "quick": ["c31_localhost_case", "c31_auth_len7"],
-        "thorough": ["c31_auth_len8", "c31_auth_len9", "c31_auth_len11"],
-    },
-    "harness_file": {"*": ("uri.rs", "src/utils/uri.rs")},
-    "timeout": {"quick": 900, "thorough": 3000},
+IPV4 = None
+
+
+def ipv4_regex():
+    d = z3.Range("0", "9")
+    d19 = z3.Range("1", "9")
+    octet = z3.Union(
+        d,                                                      # 0-9
+        z3.Concat(d19, d),                                      # 10-99
+        z3.Concat(z3.Re("1"), d, d),                            # 100-199
+        z3.Concat(z3.Re("2"), z3.Range("0", "4"), d),           # 200-249
+        z3.Concat(z3.Re("25"), z3.Range("0", "5")))             # 250-255
+    dot = z3.Re(".")
+    return z3.Concat(octet, dot, octet, dot, octet, dot, octet)
+
+
+def localhost_regex():
+    parts = []
+    for ch in "localhost":
+        parts.append(z3.Union(z3.Re(ch), z3.Re(ch.upper())))
+    return z3.Concat(*parts)
+
+
+def str_of(E, st_or_mem, val, strings):
+    """z3 String for a value: constants become literals, opaque &str values become variables."""
+    leaf = val.get(())
+    for _ in range(4):
+        if isinstance(leaf, mir.Ref):
+            sub = {k[len(leaf.loc):]: v for k, v in st_or_mem.items() if k[:len(leaf.loc)] == leaf.loc}
+            leaf = sub.get(())
+        else:
+            break
+    if isinstance(leaf, mir.Str):
+        m = re.match(r'^"(.*)"$', leaf.s)
+        return z3.StringVal(m.group(1) if m else leaf.s)
+    if isinstance(leaf, mir.Opq):
+        if leaf.id not in strings:
+            strings[leaf.id] = z3.String("str_%d" % leaf.id)
+        return strings[leaf.id]
+    return None
+
+
+def check_predicate(res):
+    E = mprop.engine(res)
+    body = E.prog.find_name("UriExt::has_dubious_authority")
+    res.functions.append("routinator::utils::uri::UriExt::has_dubious_authority (MIR, %d blocks)" % len(body.blocks))
+    strings = {}
+    isip = z3.Function("parses_as_ip", z3.StringSort(), z3.BoolSort())
+
+    def m_eq(E_, st, frame, callee, argvals, dest_ty):
+        a = str_of(E_, st.mem, argvals[0], strings)
+        b = str_of(E_, st.mem, argvals[1], strings)
+        if a is None or b is None:
+            return NotImplemented
+        st.events.append(mir.Event("str::eq", argvals, None, ("", ""), "call", callee))
+        return {(): a == b}
+
+    def m_eq_ic(E_, st, frame, callee, argvals, dest_ty):
+        a = str_of(E_, st.mem, argvals[0], strings)
+        b = str_of(E_, st.mem, argvals[1], strings)
+        if a is None or b is None or not z3.is_string_value(b):
+            return NotImplemented
+        lit = b.as_string()
+        parts = [z3.Union(z3.Re(c.lower()), z3.Re(c.upper())) if c.isalpha() else z3.Re(c) for c in lit]
+        rx = z3.Concat(*parts) if len(parts) > 1 else parts[0]
+        st.events.append(mir.Event("str::eq_ignore_ascii_case", argvals, None, ("", ""), "call", callee))
+        return {(): z3.InRe(a, rx)}
+
+    def m_contains(E_, st, frame, callee, argvals, dest_ty):
+        a = str_of(E_, st.mem, argvals[0], strings)
+        c = argvals[1].get(())
+        if a is None or not mir.is_z(c) or not z3.is_bv_value(z3.simplify(c)):
+            return NotImplemented
+        ch = chr(z3.simplify(c).as_long())
+        st.events.append(mir.Event("str::contains", argvals, None, ("", ""), "call", callee))
+        return {(): z3.Contains(a, z3.StringVal(ch))}
+
+    def m_fromstr(E_, st, frame, callee, argvals, dest_ty):
+        a = str_of(E_, st.mem, argvals[0], strings)
+        if a is None:
+            return NotImplemented
+        st.events.append(mir.Event("IpAddr::from_str", argvals, None, ("", ""), "call", callee))
+        ok = isip(a)
+        return {("disc",): z3.If(ok, z3.IntVal(0), z3.IntVal(1))}
+
+    def m_lower(E_, st, frame, callee, argvals, dest_ty):
+        return NotImplemented
+
+    paths = E.explore(body, max_visits=3, models={
+        r"^<&?str as PartialEq(<&?str>)?>::eq$": m_eq,
+        r"str>::eq_ignore_ascii_case$|::eq_ignore_ascii_case$": m_eq_ic,
+        r"str>::contains::<char>$": m_contains,
+        r"^<(std::net::)?IpAddr as FromStr>::from_str$": m_fromstr,
+    })
+    auth = None
+    for e in paths[0].events if paths else []:
+        if e.name.endswith("get_authority"):
+            auth = strings.get(e.dest.get(()).id) if isinstance(e.dest.get(()), mir.Opq) else None
+    if auth is None:
+        for p in paths:
+            for e in p.events:
+                if e.name.endswith("get_authority") and isinstance(e.dest.get(()), mir.Opq):
+                    auth = strings.setdefault(e.dest.get(()).id, z3.String("str_%d" % e.dest.get(()).id))
+    if auth is None:
+        res.inconclusive.append("has_dubious_authority never calls get_authority")
+        return E
+    # contract of the std parser used as an axiom: every dotted-quad decimal literal parses
+    dubious = z3.Or(z3.InRe(auth, localhost_regex()), z3.Contains(auth, z3.StringVal(":")),
+                    z3.InRe(auth, ipv4_regex()))
+    E.solver.add(z3.Implies(z3.InRe(auth, ipv4_regex()), isip(auth)))
+    E.solver.add(z3.Length(auth) <= 40)
+    n = 0
+    classes = {"localhost": z3.InRe(auth, localhost_regex()), "colon": z3.Contains(auth, z3.StringVal(":")),
+               "ipv4": z3.InRe(auth, ipv4_regex())}
+    for i, p in enumerate(paths):
+        if p.kind != "return":
+            continue
+        r = p.ret.get(())
+        if not mir.is_z(r):
+            res.inconclusive.append("path %d: result not boolean" % i)
+            continue
+        n += 1
+        for cname, cls in classes.items():
+            m = E.model(p.cond, z3.And(z3.Not(r), cls))
+            if m is not None:
+                s = m.eval(auth, model_completion=True).as_string()
+                native = native_replay(res, s)
+                fn = mprop.write_cex(res, "not_flagged_%s_%d" % (cname, i), p, E,
+                                     "authority %r is %s but has_dubious_authority() returns false; %s" % (s, cname, native[1]), m)
+                if native[0] is False:
+                    res.inconclusive.append("authority %r: solver model did not reproduce natively" % s)
+                else:
+                    res.violation("mir:dubious-not-flagged:" + cname,
+                                  "host %r (%s form) is not classified as dubious%s" % (s, cname, "; reproduced natively" if native[0] else ""), fn)
+        res.samples.append({"path_result_true_possible": E.feasible(p.cond, r),
+                            "tests": [e.name for e in p.events if e.kind == "call"]})
+    if n < 2:
+        res.inconclusive.append("vacuity: predicate has %d returning paths" % n)
+    res.distinct += n
+    return E
+
+
+def native_replay(res, authority):
+    """Call the real predicate on the solver's string (rsync and https URIs) in a native test."""
+    import nativetest
+    from vcommon import VERIF
+    safe = authority.replace("\\", "\\\\").replace('"', '\\"')
+    src = '''// generated by props/c31.py: native replay of a solver-found authority
+use super::*;
+use std::str::FromStr;
+#[test]
+fn c31_native_replay() {
+    let a = "%s";
+    let mut flagged_all = true;
+    if let Ok(u) = uri::Rsync::from_str(&format!("rsync://{}/module/x", a)) {
+        println!("C31-NATIVE rsync {} -> {}", a, u.has_dubious_authority());
+        flagged_all &= u.has_dubious_authority();
+    }
+    if let Ok(u) = uri::Https::from_str(&format!("https://{}/x", a)) {
+        println!("C31-NATIVE https {} -> {}", a, u.has_dubious_authority());
+        flagged_all &= u.has_dubious_authority();
+    }
+    assert!(flagged_all, "authority {} not flagged", a);
 }
+''' % safe
+    os.makedirs(os.path.join(VERIF, "replays", res.prop), exist_ok=True)
+    path = os.path.join(VERIF, "native", "c31_generated.rs")
+    with open(path, "w") as f:
+        f.write(src)
+    failed, passed, out = nativetest.run_native_test("native_c31", "c31_native_replay")
+    res.extra.setdefault("native_replays", []).append({"authority": authority, "test_failed": failed, "test_passed": passed})
+    if failed:
+        return True, "native replay: real has_dubious_authority returned false"
+    if passed:
+        return False, "native replay: real code flags it"
+    return None, "native replay could not be built"
 
 
-def gate(res, E, file, ty, method, fetch_pat, label, struct_file, cfg_struct, flag_path):
+def gate(res, E, file, ty, method, fetch_pat, label):
     body = E.prog.find(file, ty, method)
     res.functions.append("%s::%s (MIR, %d blocks)" % (ty, method, len(body.blocks)))
     paths = E.explore(body, max_visits=2, nomut=[r"."])
@@ -30,32 +197,19 @@ def gate(res, E, file, ty, method, fetch_pat, label, struct_file, cfg_struct, fl
             continue
         n += 1
         dub = [e for e in p.events[:fetch[0]] if e.kind == "call" and re.search(r"has_dubious_authority$", e.name)]
-        # the fetch may only happen if filtering is off or the predicate said "not dubious"
         if not dub:
-            # allowed only if the path condition shows filter_dubious == false
-            flag = [c for c in p.cond if "filter_dubious" in str(c) or ".0" in str(c)]
-            # find the boolean that guarded the short-circuit: first Bool in the condition list
-            ok = False
-            for c in p.cond:
-                s = str(z3.simplify(c))
-                if s.startswith("Not(") and "filter" in s.lower():
-                    ok = True
-            if not ok:
-                # generic: the fetch is reached without consulting the predicate; accept only when some
-                # boolean field read before the fetch is forced false (the filter flag)
-                ok = any(z3.is_not(z3.simplify(c)) and z3.is_const(z3.simplify(c).arg(0)) for c in p.cond)
+            # legal only if the filter flag itself is forced false on this path (short-circuit &&)
+            ok = any(z3.is_not(z3.simplify(c)) and z3.is_const(z3.simplify(c).arg(0)) for c in p.cond)
             if not ok:
                 fn = mprop.write_cex(res, "%s_fetch_unfiltered_%d" % (label, i), p, E,
-                                     "%s reaches %s without evaluating has_dubious_authority while filtering may be on" % (method, fetch_pat))
+                                     "%s reaches its fetch without evaluating has_dubious_authority although filtering may be on" % method)
                 res.violation("mir:%s:fetch-without-dubious-test" % label,
                               "%s starts a fetch without testing the host although filtering is enabled" % label, fn)
             continue
         r = dub[-1].dest.get(())
         if mir.is_z(r) and E.feasible(p.cond, r):
-            # dubious and still fetching: only legal when the filter flag is off, but then the predicate
-            # would not have been evaluated (short-circuit &&)
             fn = mprop.write_cex(res, "%s_fetch_dubious_%d" % (label, i), p, E,
-                                 "%s reaches %s although has_dubious_authority() returned true" % (method, fetch_pat))
+                                 "%s reaches its fetch although has_dubious_authority() returned true" % method)
             res.violation("mir:%s:fetch-to-dubious-host" % label,
                           "%s starts a fetch for a URI whose host was classified dubious with filtering enabled" % label, fn)
         if len(res.samples) < 8:
@@ -63,29 +217,27 @@ def gate(res, E, file, ty, method, fetch_pat, label, struct_file, cfg_struct, fl
     if n == 0:
         res.inconclusive.append("vacuity: %s never reaches its fetch (%s)" % (method, fetch_pat))
     res.distinct += n
-    return n
 
 
 def run(res, tier):
-    res.functions += ["routinator::utils::uri::UriExt::has_dubious_authority (provided method, real)",
-                      "std::net::IpAddr::from_str, str::contains, str eq (real std code)"]
+    res.extra.setdefault("source_files_sha256", {}).update(
+        mprop.source_hashes(["src/utils/uri.rs", "src/collector/rsync.rs", "src/collector/rrdp/base.rs"]))
+    E = check_predicate(res)
+    gate(res, E, "src/collector/rsync.rs", "Run", "load_module", r"RsyncCommand::update$", "rsync")
+    gate(res, E, "src/collector/rrdp/base.rs", "Run", "load_repository",
+         r"RepositoryUpdate::new$|RepositoryUpdate::try_update$", "rrdp")
     res.bounds += [
-        "authority = every ASCII byte string of exactly 7 bytes (quick; shortest IPv4 literal) / 8, 9, 11 bytes "
-        "(thorough) over printable characters without '/', '@'; plus the word localhost in all 512 letter-case "
-        "variants; longer authorities are outside the bound",
+        "authority: any string of up to 40 characters (z3 string theory); classes checked: 'localhost' in any letter "
+        "case, any string containing ':', any dotted-quad decimal IPv4 literal without leading zeros",
+        "fetch gates: all paths of rsync::Run::load_module and rrdp::Run::load_repository",
     ]
     res.assumptions += [
-        "the reference classifies: case-insensitive 'localhost', any ':' (explicit port, IPv6 literal, bracketed "
-        "forms), dotted-quad decimal IPv4 without leading zeros; only the direction 'reference says dubious => "
-        "flagged' is asserted",
-        "get_authority() returns the URI's authority component (rpki-rs)",
+        "models (trusted) for the three std calls the predicate makes: str == str is string equality, "
+        "str::contains(char) is substring containment, IpAddr::from_str succeeds at least on every dotted-quad "
+        "decimal literal (axiom; other inputs free)",
+        "only 'documented dubious form => flagged' is asserted, not the converse",
+        "a solver-found authority is replayed natively through rpki's real URI parser and the real predicate",
     ]
-    res.rule = ("K: one case = one Kani harness (authority length); M: one case = one feasible path of a fetch gate "
-                "that reaches the fetch; evaluations = CBMC checks + z3 queries")
-    run_kani_part(res, SPEC, tier)
-    E = mprop.engine(res)
-    gate(res, E, "src/collector/rsync.rs", "Run", "load_module", r"RsyncCommand::update$", "rsync",
-         None, None, None)
-    gate(res, E, "src/collector/rrdp/base.rs", "Run", "load_repository", r"RepositoryUpdate::new$|RepositoryUpdate::try_update$", "rrdp",
-         None, None, None)
+    res.rule = ("one case = one returning MIR path of the predicate x 3 host classes (z3 string queries), or one "
+                "path of a fetch gate that reaches the fetch; evaluations = z3 queries")
     mprop.finish_engine(res, E)
